@@ -85,6 +85,17 @@ Theorem progress_in_order_not_after_return : forall U s l s' outs o k t n,
 Proof. exact progress_step_proof. Qed.
 Print Assumptions progress_in_order_not_after_return.
 
+Example progress_nonvacuous :
+  let x := exec checked cfg0
+     [ApiStart 1 (OpCall 7 true None) 1;
+      RouterMsg (RResult 1 [("progress"%string, VBool true)] [VInt 5]);
+      RouterMsg (RResult 1 [("progress"%string, VBool true)] [VInt 6]);
+      RouterMsg (RResult 1 [] [VInt 7]); ApiFinish 1;
+      RouterMsg (RResult 1 [("progress"%string, VBool true)] [VInt 8])] in
+  filter (fun e => match e with EOut (OProgress _ _ _ _) | EOut (OReturn _ _ _) => true | _ => false end) (x_events x)
+  = [EOut (OProgress 1 1 5 1); EOut (OProgress 1 1 6 1); EOut (OReturn 1 1 (RetResult 1 7 1 false))].
+Proof. vm_compute. reflexivity. Qed.
+
 (* ---- 3. cancellation ------------------------------------------------------ *)
 
 (* Cancelling or expiring the context of a waiting Call sends exactly one
@@ -119,6 +130,14 @@ Theorem cancelled_call_other_exit_is_timeout : forall U s l s' outs o k r w dl,
   r = RetTimeout /\ l = TimerFire o.
 Proof. exact cancelled_call_other_exit_proof. Qed.
 Print Assumptions cancelled_call_other_exit_is_timeout.
+
+Example cancel_nonvacuous :
+  let x := exec checked {| cfg_rt := 5000; cfg_mode := MKill; cfg_ppt := false; cfg_progcall := true |}
+     [ApiStart 1 (OpCall 7 false None) 1; CtxCancel 1; RouterMsg (RResult 1 [] [VInt 5]);
+      RouterMsg (RError 1 9); Tick 6000; TimerFire 1] in
+  filter (fun e => match e with EOut _ => true | _ => false end) (x_events x)
+  = [EOut (OSend (CCall 1 7 false false)); EOut (OSend (CCancel 1 MKill)); EOut (OReturn 1 1 (RetCtx false))].
+Proof. vm_compute. reflexivity. Qed.
 
 (* ---- 4. invocations -------------------------------------------------------- *)
 
